@@ -161,3 +161,37 @@ void h_pair_less(void)
   VERIF_CANARY;
 }
 #endif
+
+/* ------------------------------------------------------------------------------------------------
+ * RectangularCluster::generateFixedRectangleConstraints: a cluster bound to node rectangle R (m_rectangle_index >= 0) gets exactly four equalities
+ *    X: lower + w/2 == x(R),  x(R) + w/2 == upper        Y: lower + h/2 == y(R),  y(R) + h/2 == upper
+ * (lower/upper being variables clusterVarId / clusterVarId + 1, w and h the width and height of R), all handed to the idle-constraint list;
+ * a cluster not bound to a rectangle gets none.  Containment of the members in such a cluster, hence C08's clause for them, rests on these. */
+#if defined(JOB_fixed_rect)
+void w_fixed(int rectIndex, unsigned clusterVarId); int verif_rect_index(void *r);
+static double Wd[3], Hd[3]; static int nsep, npushed; static int sdim[6], seq[6]; static unsigned sl[6], sr[6]; static double sgap[6];
+double w_width(void *r) { int k = verif_rect_index(r); __CPROVER_assert(k >= 0, "SPEC width() asked of one of the rectangles"); return Wd[k]; }
+double w_height(void *r) { int k = verif_rect_index(r); __CPROVER_assert(k >= 0, "SPEC height() asked of one of the rectangles"); return Hd[k]; }
+void w_new_sep(int dim, unsigned l, unsigned r, double gap, int eq) { __CPROVER_assert(nsep < 6, "SPEC no more than four constraints"); sdim[nsep] = dim; sl[nsep] = l; sr[nsep] = r; sgap[nsep] = gap; seq[nsep] = eq; nsep++; }
+void w_pushed(void *c) { npushed++; }
+static int count_sep(int dim, unsigned l, unsigned r, double gap)
+{ int n = 0; for (int k = 0; k < 6; ++k) if (k < nsep && sdim[k] == dim && sl[k] == l && sr[k] == r && sgap[k] == gap && seq[k] == 1) n++; return n; }
+void h_fixed(void)
+{
+  int rectIndex; unsigned cv; double w[3], h[3];
+  __CPROVER_assume(rectIndex >= -1 && rectIndex <= 2 && cv >= 3 && cv < (1u << 30));   /* cluster variables come after the node variables */
+  for (int k = 0; k < 3; ++k) { __CPROVER_assume(!__CPROVER_isnand(w[k]) && !__CPROVER_isnand(h[k])); Wd[k] = w[k]; Hd[k] = h[k]; }
+  nsep = 0; npushed = 0;
+  w_fixed(rectIndex, cv);
+  if (rectIndex < 0) __CPROVER_assert(nsep == 0 && npushed == 0, "SPEC a cluster not bound to a rectangle gets no fixed-rectangle constraints");
+  else {
+    unsigned R = (unsigned)rectIndex; double hw = w[rectIndex] / 2, hh = h[rectIndex] / 2;
+    __CPROVER_assert(nsep == 4 && npushed == 4, "SPEC exactly four constraints, all handed to the idle list");
+    __CPROVER_assert(count_sep(0, cv, R, hw) == 1, "SPEC X: lower boundary + width/2 == rectangle centre");
+    __CPROVER_assert(count_sep(0, R, cv + 1, hw) == 1, "SPEC X: rectangle centre + width/2 == upper boundary");
+    __CPROVER_assert(count_sep(1, cv, R, hh) == 1, "SPEC Y: lower boundary + height/2 == rectangle centre");
+    __CPROVER_assert(count_sep(1, R, cv + 1, hh) == 1, "SPEC Y: rectangle centre + height/2 == upper boundary");
+  }
+  VERIF_CANARY;
+}
+#endif
